@@ -522,6 +522,28 @@ impl<'a, C: Crypto> Ctl<'a, C> {
     }
 
     /// Write one concrete attribute with a value encodable by `ToTLV`.
+    /// OperationalCredentials::SetVIDVerificationStatement(vendorID) for the accessing fabric.
+    pub async fn set_vid_verification(&self, via: Via, vendor_id: u16) -> Out {
+        let r: Result<(), Error> = async {
+            self.exch(via)
+                .await?
+                .operational_credentials()
+                .set_vid_verification_statement(0, |req| {
+                    req.vendor_id(Some(vendor_id))?
+                        .vid_verification_statement(None)?
+                        .vvsc(None)?
+                        .end()
+                })
+                .await?;
+            Ok(())
+        }
+        .await;
+        match r {
+            Ok(()) => Out::Ok(0),
+            Err(e) => Out::Err(e.code()),
+        }
+    }
+
     /// Groups::AddGroup on endpoint 1 (generic invoke: the command data is written by hand).
     pub async fn add_group(&self, via: Via, group_id: u16, name: &str) -> Out {
         let r: Result<u8, Error> = async {
